@@ -68,6 +68,7 @@ func (v *PointerSchema) process(ctx *p.SchemaCtx) {
 			return
 		}
 		ctx.Data = val
+		subCtx.Data = val
 	}
 	// End of messy code
 
